@@ -5,9 +5,10 @@ import re
 
 from ..core import AnalysisError, norm, short, walk_local
 from ..kinds import (RELATIONS, FIELD_OWNER, FIELD_TYPES, CONCRETE, kinds_of, typer_for, field_class)
-from ..pairing import O2_RELATIONS, VALID_EXIT, expand_defs, Pairing
+from ..pairing import O2_RELATIONS, VALID_EXIT, expand_defs, Pairing, with_def_consequences
 from ..typestate import is_public_entry, is_clone_family, classify_set
 from . import register
+from ..inline import inlined_view
 
 VIEW_CLASSES = {"ListView": "spydrnet/ir/views/listview.py", "SetView": "spydrnet/ir/views/setview.py",
                 "DictView": "spydrnet/ir/views/dictview.py", "OuterPinsView": "spydrnet/ir/views/outerpinsview.py"}
@@ -803,6 +804,7 @@ def _m1(ctx, R):
                     continue
                 has = any(t.startswith("W:Instance._pins.setitem:") or (t.startswith("V:") and t.endswith(":Instance._pins.setitem")) for t in tk)
                 looped = [t for t in tk if t.startswith("L:") and "references" in t]
+                fa = fa | frozenset(expand_defs(a, fa) for a in fa if not a.startswith("def("))
                 nodef = any(a in fa for a in ("falsy(self.definition)", "is(self.definition,None)", "falsy(self._definition)", "is(self._definition,None)"))
                 via_callee = any(t.startswith("V:") and t.endswith(":Instance._pins.setitem") for t in tk)
                 if not (looped or nodef or via_callee):
@@ -868,7 +870,9 @@ def _m_setter(ctx, R):
     R.count("non-clone writers of Instance._reference", len(writers))
     R.floor("non-clone writers of Instance._reference", 1)
     for f, ev in writers:
-        res = PA.results[f.key]
+        g = inlined_view(P, f)
+        res = PA.results[f.key] if g is f else PA.analyse_view(g)
+        f = g
         recv = norm(ev.recv)
         val = norm(ev.value) if ev.value is not None else None
         old_names = ["old:%s.reference" % recv]
@@ -960,6 +964,7 @@ def _m_setter(ctx, R):
             for cn in fe.cfg.nodes:
                 if cn.id in st and any(e.kind == "write" and e.field == "_pins" and e.op == "pop" for e in fe.by_node[cn.id]):
                     for fa, rl, tk in st[cn.id]:
+                        fa = with_def_consequences(fa)
                         pop_facts = fa if pop_facts is None else (pop_facts & fa)
             if pop_facts is not None:
                 ports_eq = any(re.match(r"eq\(len\((.+)\.ports\),len\((.+)\.ports\)\)$", a) for a in pop_facts)
